@@ -275,7 +275,12 @@ func (s Spec) Statements() []oracle.Stmt {
 	out = append(out, oracle.Stmt{SQL: "BEGIN"})
 	for _, ts := range s.Tables {
 		var cols, ph []string
-		for _, c := range ts.Def.Cols {
+		generated := map[int]bool{} // (values of generated columns cannot be inserted)
+		for i, c := range ts.Def.Cols {
+			if c.Generated() {
+				generated[i] = true
+				continue
+			}
 			cols = append(cols, c.Ident.SQL)
 		}
 		for _, r := range ts.Rows {
@@ -287,7 +292,10 @@ func (s Spec) Statements() []oracle.Stmt {
 				ph = append(ph, "?")
 				params = append(params, val.Int(*r.Rowid))
 			}
-			for _, v := range r.Vals {
+			for i, v := range r.Vals {
+				if generated[i] {
+					continue
+				}
 				ph = append(ph, sqdb.TextParam(v))
 				params = append(params, v)
 			}
@@ -295,7 +303,7 @@ func (s Spec) Statements() []oracle.Stmt {
 		}
 		for _, b := range ts.Bulk {
 			out = append(out, oracle.Stmt{SQL: fmt.Sprintf("WITH RECURSIVE c(x) AS (SELECT %d UNION ALL SELECT x+1 FROM c WHERE x < %d) INSERT OR IGNORE INTO %s (%s) SELECT %s FROM c",
-				b.From, b.From+b.N-1, ts.Def.Ident.SQL, strings.Join(cols, ", "), strings.Join(b.Exprs, ", "))})
+				b.From, b.From+b.N-1, ts.Def.Ident.SQL, strings.Join(cols, ", "), strings.Join(dropAt(b.Exprs, generated), ", "))})
 		}
 	}
 	out = append(out, oracle.Stmt{SQL: "COMMIT"})
@@ -630,4 +638,17 @@ func RawDefault(cat *Catalog, cols []string, got []interface{}, want val.Row) bo
 		found = true
 	}
 	return found
+}
+
+func dropAt(xs []string, drop map[int]bool) []string {
+	if len(drop) == 0 {
+		return xs
+	}
+	var out []string
+	for i, x := range xs {
+		if !drop[i] {
+			out = append(out, x)
+		}
+	}
+	return out
 }
